@@ -7,6 +7,12 @@
 #ifndef H_NC
 #define H_NC 2
 #endif
+#ifndef H_LIVE
+#define H_LIVE 15
+#endif
+#ifndef H_FILTER
+#define H_FILTER 0
+#endif
 #ifndef H_D
 #define H_D 1
 #endif
